@@ -77,7 +77,8 @@ class AllOf(Matcher):
         return ":"
 
     def build_description(self, transformation):
-        return _build_composite_description(self.matchers, transformation, "and")
+        # De Morgan: the negative form of "a and b" is "not a or not b"
+        return _build_composite_description(self.matchers, transformation, "or" if transformation.negative else "and")
 
     def matches(self, actual):
         results = []
@@ -112,7 +113,8 @@ class AnyOf(Matcher):
         return ":"
 
     def build_description(self, transformation):
-        return _build_composite_description(self.matchers, transformation, "or")
+        # De Morgan: the negative form of "a or b" is "not a and not b"
+        return _build_composite_description(self.matchers, transformation, "and" if transformation.negative else "or")
 
     def matches(self, actual):
         results = []
